@@ -5,6 +5,8 @@ import WaVerif.Lemmas.C13Tree
 import WaVerif.Lemmas.C13Rotate
 import WaVerif.Lemmas.C13Insert
 import WaVerif.Lemmas.C13Slots
+import WaVerif.Lemmas.C13Inv
+import WaVerif.Lemmas.C13Splice
 /-!
 # C13 — property theorems (runtime maps behave as finite maps)
 
@@ -179,6 +181,34 @@ theorem rotate_right_preserves_inorder (s : St) (a b c : RTree) (x y : Nat) (kx 
   refine ⟨hrep, by simp [RTree.toList], by simp [RTree.ptrs], ?_, rightRotate_nodes s x⟩
   rw [rightRotate_root s x hy0 hxy hbx, hy]
 
+
+/-! ### rotations anywhere in the tree, and the two fix-up loops, preserve the in-order sequence
+
+`TInv s t` (Lemmas/C13Inv.lean): the root represents `t`, nodes pairwise distinct, every `parentIdx`
+leads to the tree parent (NIL for the root), every tree node sits in the slot its `NodeIdx` names,
+every slot holds a tree node, NIL's child pointers are NIL.  Colours are NOT part of it: red-black
+balance is monitored, not proved. -/
+
+/-- a rotation at ANY node of the tree (or at NIL, or at a node without the needed child: no-op)
+preserves the whole-tree invariant; the represented tree is the pure rotation, same in-order
+key/value and node sequences -/
+theorem rotation_anywhere_preserves_invariant {s : St} {t : RTree} (h : TInv s t) {x : Nat} (hx : x ∈ t.ptrs ∨ x = 0) :
+    (TInv (leftRotate s x) (t.rotL x) ∧ (t.rotL x).toList = t.toList ∧ (t.rotL x).ptrs = t.ptrs) ∧
+    (TInv (rightRotate s x) (t.rotR x) ∧ (t.rotR x).toList = t.toList ∧ (t.rotR x).ptrs = t.ptrs) :=
+  ⟨⟨tinv_leftRotate h hx, RTree.rotL_toList x t, RTree.rotL_ptrs x t⟩,
+   ⟨tinv_rightRotate h hx, RTree.rotR_toList x t, RTree.rotR_ptrs x t⟩⟩
+
+/-- `insertFixup` (any fuel, started at any tree node): the store stays well formed and represents a
+tree with the SAME in-order key/value sequence and the same nodes — so every lookup is unchanged -/
+theorem insertFixup_preserves_inorder (f : Nat) {s : St} {t : RTree} (h : TInv s t) {z : Nat} (hz : z ∈ t.ptrs ∨ z = 0) :
+    ∃ t', TInv (insertFixup f s z) t' ∧ t'.toList = t.toList ∧ t'.ptrs = t.ptrs :=
+  good_insertFixup f ⟨t, h, rfl, rfl⟩ z hz
+
+/-- `deleteFixup` likewise (started at any pointer: `x` may be NIL) -/
+theorem deleteFixup_preserves_inorder (f : Nat) {s : St} {t : RTree} (h : TInv s t) (x : Nat) :
+    ∃ t', TInv (deleteFixup f s x) t' ∧ t'.toList = t.toList ∧ t'.ptrs = t.ptrs :=
+  good_deleteFixup f ⟨t, h, rfl, rfl⟩ x
+
 /-! ### Delete -/
 
 /-- FULL-STRENGTH refinement statement for `Delete`: on every well-formed store, `Delete` yields a
@@ -306,6 +336,54 @@ theorem delete_slots_refine (s : St) (k : Int) (z : Nat) (A C : List Nat)
 example : let s := C13RB.run false witnessSets
     search s 4 = some 4 ∧ s.nodes.toList = 0 :: ([1, 2, 3] ++ 4 :: [5, 6, 7, 8, 9, 10]) ∧ (s.nd 4).idx = [1, 2, 3].length + 1 ∧
     (s.nd 4).key = 4 ∧ (4 : Int) ∉ keys ([1, 2, 3].map (kv s)) := by decide
+
+
+/-- the invariant is satisfiable: the witness store (keys 1 … 10) -/
+theorem witness_tinv : TInv (C13RB.run false witnessSets) witnessTree :=
+  ⟨by decide, by decide, by decide, by decide, by decide, by decide, by decide, by decide⟩
+
+/-- PARTIAL refinement at the tree level, for a node with AT MOST ONE child (pinned code).  On any store
+whose root represents a BST `t` with distinct nodes and correct parent links, if `search` finds `z` for `k`
+and `z` has at most one child, then (1) `delete(z)` is the unlinking step `spliceOut` followed by
+`deleteFixup` when `z` was black, (2) after the unlinking step the root represents `t.remove z`, a BST whose
+in-order list is `t`'s without `k`'s entry, and (3) every `Lookup` on that store is the finite-map delete.
+`deleteFixup` then preserves the in-order sequence (`deleteFixup_preserves_inorder`) and the slot
+bookkeeping refines the spec (`delete_slots_refine`); gluing these across the intermediate store (whose
+slot array still lists the unlinked node) is monitored by the driver, not proved. -/
+theorem delete_refines_spec_partial (s : St) (t : RTree) (k : Int) (z : Nat)
+    (hr : Rep s s.root t) (hn : t.ptrs.Nodup) (hp : POK s 0 t) (hb : BST t) (hf : t.height < s.fuel)
+    (hs : search s k = some z) (hz : z ≠ 0)
+    (h1 : (s.nd z).left = 0 ∨ (s.nd z).right = 0) :
+    (treeDelete false s z).1 =
+      (if ((spliceOut s z).nd z).red = false
+       then deleteFixup (spliceOut s z).fuel (spliceOut s z) (if (s.nd z).left ≠ 0 then (s.nd z).left else (s.nd z).right)
+       else spliceOut s z) ∧
+    Rep (spliceOut s z) (spliceOut s z).root (t.remove z) ∧ BST (t.remove z) ∧
+    (∃ L R v, t.toList = L ++ (k, v) :: R ∧ (t.remove z).toList = L ++ R) ∧
+    (∀ q, C13RB.lookup (spliceOut s z) q = if q = k then none else C13Spec.lookup q t.toList) := by
+  have hfind : search s k = some (t.find k) := searchFrom_rep k hr hf
+  have hzf : z = t.find k := by rw [hs] at hfind; exact Option.some.inj hfind
+  have hfm := find_mem (s := s) k hr (hzf ▸ hz)
+  rw [← hzf] at hfm
+  obtain ⟨hzm, hzk⟩ := hfm
+  have hrep := spliceOut_rep s z t hr hn hp hzm
+  have hbst := bst_remove z t hb
+  obtain ⟨L, R, e1, e2⟩ := remove_toList hr hn hzm h1
+  rw [hzk] at e1
+  refine ⟨treeDelete_le1 s z h1, hrep, hbst, ⟨L, R, _, e1, e2⟩, fun q => ?_⟩
+  have hf' : (t.remove z).height < (spliceOut s z).fuel := by
+    have := height_remove_le z t
+    unfold St.fuel at *
+    rw [spliceOut_size]
+    omega
+  rw [(search_correct_of_BST (spliceOut s z) (t.remove z) q hrep hbst hf').1, e2]
+  have hkn := bst_keys_nodup hb
+  rw [e1] at hkn
+  rw [lookup_remove_middle L R _ hkn q, e1]
+
+/-- hypotheses satisfiable: the witness store and key 5 (a leaf: no children) -/
+example : search (C13RB.run false witnessSets) 5 = some 5 ∧ ((C13RB.run false witnessSets).nd 5).left = 0 ∧
+    POK (C13RB.run false witnessSets) 0 witnessTree ∧ BST witnessTree := by decide
 
 /-- the full statement is FALSE of the pinned code (`fixed = false`) -/
 theorem delete_refines_spec_false : ¬ DeleteRefinesSpec false := by
